@@ -69,7 +69,7 @@ namespace rkcommon {
       INDEX_T numBlocks = (nTasks + BLOCK_SIZE - 1) / BLOCK_SIZE;
       parallel_for(numBlocks, [&](INDEX_T blockID) {
         INDEX_T begin = blockID * (INDEX_T)BLOCK_SIZE;
-        INDEX_T end   = std::min(begin + (INDEX_T)BLOCK_SIZE, nTasks);
+        INDEX_T end   = std::min<INDEX_T>(begin + (INDEX_T)BLOCK_SIZE, nTasks);
         fcn(begin, end);
       });
     }
